@@ -194,6 +194,8 @@ enum Role {
     RowScaled,
     /// no weights at all (for unit weights, C06)
     Unweighted,
+    /// the same weighted problem, built with a provisional (different) weights call before the final one (C06: applied exactly once)
+    Reweighted,
     /// row `i` deleted from model, data and weights (zero weight, C06)
     RowDeleted(usize),
     /// |w| instead of w (negative weight, C06)
@@ -220,6 +222,11 @@ fn build_role<T: Sc>(env: &Env<T>, sc: &Scen, role: &Role, a: &[T]) -> Box<dyn P
             prob::build(m, &ys, None, env.eps, sc.api, sc.par).unwrap()
         }
         Role::Unweighted => prob::build(env.model(sc, a), &env.y, None, env.eps, sc.api, sc.par).unwrap(),
+        Role::Reweighted => {
+            let w = env.w.clone().unwrap();
+            let provisional = w.map(|v| v * T::f(3.0) + T::f(0.25));
+            prob::build_reweighted(env.model(sc, a), &env.y, &provisional, &w, env.eps, sc.api, sc.par).unwrap()
+        }
         Role::RowDeleted(i) => {
             let keep: Vec<usize> = (0..sc.n).filter(|r| r != i).collect();
             let y2 = DMatrix::from_fn(keep.len(), env.y.ncols(), |r, c| env.y[(keep[r], c)]);
@@ -254,7 +261,10 @@ fn roles_for(sc: &Scen, prop: &str) -> Vec<Role> {
                 r.push(Role::RowScaled);
                 r.push(Role::AbsWeights(i % sc.n));
             }
-            _ => r.push(Role::RowScaled),
+            _ => {
+                r.push(Role::RowScaled);
+                r.push(Role::Reweighted);
+            }
         },
         "C07" => {
             for s in 0..sc.ycols.len() {
@@ -277,7 +287,7 @@ struct Explorer<'a, T: Sc> {
     alphas_t: Vec<Vec<T>>,
     failing: Vec<bool>,
     /// first key seen per alphabet index, with the history that produced it
-    seen: BTreeMap<usize, (u64, Vec<usize>)>,
+    seen: BTreeMap<usize, (u64, Vec<usize>, Obs<T>)>,
     refs: BTreeMap<usize, Reference>,
     keys: std::collections::BTreeSet<u64>,
     hist: Vec<usize>,
@@ -339,14 +349,28 @@ impl<'a, T: Sc> Explorer<'a, T> {
         }
         // single-valuedness of alpha -> state over all histories (C10)
         match self.seen.get(&ai) {
-            Some((k0, h0)) => {
+            Some((k0, h0, first)) => {
                 if *k0 != key {
                     let h0 = h0.clone();
+                    let first = first.clone();
                     self.violate("C10", "history-dependent-state", format!("state for alphabet entry {} differs between history {:?} and history {:?}", ai, h0, self.hist));
+                    // the state reached first was validated by this property's oracle; a different state at the same
+                    // parameters therefore carries values that are not the ones the property demands for these parameters
+                    let p = self.prop.to_string();
+                    let differs = match p.as_str() {
+                        "C01" => first.coef != o1.coef,
+                        "C02" => first.res != o1.res || first.coef != o1.coef,
+                        "C03" => first.jac != o1.jac,
+                        "C11" => true,
+                        _ => false,
+                    };
+                    if differs {
+                        self.violate(&p, "values-depend-on-history", format!("after history {:?} the reported values for alphabet entry {} differ from those validated after history {:?}", self.hist, ai, h0));
+                    }
                 }
             }
             None => {
-                self.seen.insert(ai, (key, self.hist.clone()));
+                self.seen.insert(ai, (key, self.hist.clone(), o1.clone()));
             }
         }
         if first_visit {
@@ -415,6 +439,13 @@ impl<'a, T: Sc> Explorer<'a, T> {
             if r.class == RankClass::NonFinite {
                 if o.res.is_some() {
                     findings.push(Finding { property: "C08", signature: "present-with-nonfinite-basis".into(), detail: "basis matrix is non-finite but residuals are exposed".into() });
+                    let pp: &'static str = match prop.as_str() {
+                        "C01" => "C01",
+                        "C02" => "C02",
+                        "C03" => "C03",
+                        _ => "C10",
+                    };
+                    findings.push(Finding { property: pp, signature: "values-not-for-current-parameters".into(), detail: "the model is non-finite at the parameters the problem reports, yet residuals/coefficients are exposed: they cannot belong to these parameters".into() });
                 }
             } else {
                 match prop.as_str() {
@@ -525,11 +556,15 @@ impl<'a, T: Sc> Explorer<'a, T> {
         let ncol = self.sc.ycols.len();
         let prop = self.prop.to_string();
         match role {
-            Role::OtherFlavour | Role::Unweighted => {
+            Role::OtherFlavour | Role::Unweighted | Role::Reweighted => {
                 // identities of deterministic computations: bitwise
                 if s != t {
                     let what = if s.res != t.res { "residuals" } else if s.coef != t.coef { "coefficients" } else if s.jac != t.jac { "jacobian" } else { "params" };
-                    let (p, sig) = if *role == Role::OtherFlavour { ("C11", "parallel-differs-from-sequential") } else { ("C06", "unit-weights-differ-from-no-weights") };
+                    let (p, sig) = match role {
+                        Role::OtherFlavour => ("C11", "parallel-differs-from-sequential"),
+                        Role::Reweighted => ("C06", "weights-applied-more-than-once"),
+                        _ => ("C06", "unit-weights-differ-from-no-weights"),
+                    };
                     self.violate(p, sig, format!("{} differ bitwise between the two problems at alphabet entry {}", what, ai));
                 } else {
                     self.bitwise_equal_twins += 1;
@@ -885,6 +920,27 @@ fn scenarios(prop: &str, thorough: bool) -> Vec<Scen> {
                     }
                 }
             }
+            // signed zeros are different parameter vectors: exp(-x/tau) on x > 0 is 0 for tau = +0.0 and +inf for tau = -0.0;
+            // and parameter vectors closer together than a user threshold are still different parameter vectors
+            for prov in provs {
+                for par in [false, true] {
+                    if prop == "C11" && !par {
+                        continue;
+                    }
+                    for f32_ in [false, true] {
+                        let mut s = mk(&Family::Exp1Off, 6, prov, f32_, par, Api::Single, vec![YCol::Noisy], WKind::Ramp, EpsKind::Default);
+                        s.xshift = 0.5;
+                        s.alphas = vec![vec![1.0], vec![1.25], vec![0.0], vec![-0.0], vec![2.0]];
+                        v.push(s);
+                        for (fam, n) in [(Family::Exp2Off, 9usize), (Family::OLeary, 8)] {
+                            let mut s = mk(&fam, n, prov, f32_, par, Api::Mrhs, vec![YCol::Noisy, YCol::Off], WKind::Ramp, EpsKind::Val(1e-2));
+                            let g = s.alphas[1].clone();
+                            s.alphas = vec![s.alphas[0].clone(), g.clone(), g.iter().map(|v| v + 2e-3).collect(), g.iter().map(|v| v - 4e-3).collect(), s.alphas[2].clone()];
+                            v.push(s);
+                        }
+                    }
+                }
+            }
             if prop == "C10" {
                 // histories that contain failing updates (model with a domain)
                 let mut extra = vec![];
@@ -906,17 +962,6 @@ fn scenarios(prop: &str, thorough: bool) -> Vec<Scen> {
                     }
                 }
                 v.extend(extra);
-                // signed zeros are different parameter vectors: exp(-x/tau) on x > 0 is 0 for tau = +0.0 and +inf for tau = -0.0
-                for prov in provs {
-                    for par in [false, true] {
-                        for f32_ in [false, true] {
-                            let mut s = mk(&Family::Exp1Off, 6, prov, f32_, par, Api::Single, vec![YCol::Noisy], WKind::Ramp, EpsKind::Default);
-                            s.xshift = 0.5;
-                            s.alphas = vec![vec![1.0], vec![1.25], vec![0.0], vec![-0.0], vec![2.0]];
-                            v.push(s);
-                        }
-                    }
-                }
             }
         }
         "C06" => {
